@@ -13,11 +13,6 @@ package protocols
 //@   ensures guard_is_step_index:  emitted("if (unlikely(state_ != %d)) {\n") == 1 && emittedArg("if (unlikely(state_ != %d)) {\n", 0, 0, int) == i
 //@   ensures nonstream_advances:   !step.IsStream() ==> emitted("state_ = %d;\n") == 1 && emittedArg("state_ = %d;\n", 0, 0, int) == i + 1
 //@   ensures stream_stays:         step.IsStream() ==> emitted("state_ = %d;\n") == 0
-// firstSeq(F): the running number of the first printing of F. Every call of a public write method is checked against
-// the state before anything else happens: the check is printed before the call of the implementation, and the method
-// has no way out in front of it (an empty batch written out of turn is an error like any other).
-//@   ensures the_state_is_checked_before_the_implementation_is_called: emitted("%s(%s);\n") == 1 && firstSeq("if (unlikely(state_ != %d)) {\n") < firstSeq("%s(%s);\n")
-//@   ensures no_way_out_in_front_of_the_check: emitted("return;\n") == 0
 
 // ---- C07: C++ reader. State 2k = ready to read step k; 2k+1 = the stream of step k ended but the caller has
 // not yet observed it (it is observed by the next call) ------------------------------------------------------
